@@ -123,7 +123,7 @@ class FuncModel:
             return c.func.attr
         return ""
 
-    def is_abbreviation(self, e: ast.expr) -> bool:
+    def is_abbreviation(self, e: ast.expr, at: N | None = None) -> bool:
         """RHS shapes that a local name merely abbreviates (safe to expand while not stale)."""
         if isinstance(e, (ast.Name, ast.Constant)):
             return True
@@ -134,12 +134,12 @@ class FuncModel:
             if n == "root" and not e.args:
                 return True
             if n == "cast" and len(e.args) == 2:
-                return self.is_abbreviation(e.args[1])
+                return self.is_abbreviation(e.args[1], at)
             if n in PURE_PREDICATES or n in ("node_is_minimal", "len"):
                 return all(self.is_pure(a) for a in e.args)
             return False
         if isinstance(e, ast.Subscript):
-            h = self.raw_handle(e.value)
+            h = self.raw_handle(e.value) or (self.handle(e.value, at, check_stale=False) if at is not None else None)
             if h is not None and isinstance(e.slice, ast.Constant):
                 return True  # field load (staleness is checked for mutable fields)
             d = dotted(e.value)
@@ -225,7 +225,7 @@ class FuncModel:
                 if sd is None:
                     return n
                 d, rhs = sd
-                if not me.is_abbreviation(rhs) or me.stale(d, at, rhs):
+                if not me.is_abbreviation(rhs, d) or me.stale(d, at, rhs):
                     return n
                 return me.canon_ast(_copy.deepcopy(rhs), d, depth + 1)
 
@@ -276,7 +276,8 @@ class FuncModel:
             elif isinstance(n, ast.Subscript) and isinstance(n.slice, ast.Constant) \
                     and isinstance(n.slice.value, str):
                 if self.handle(n.value, at) is not None and n.slice.value not in IMMUTABLE_FIELDS:
-                    out.add("F:" + n.slice.value)
+                    hk = self.hkey(n.value, at)
+                    out.add("F:" + n.slice.value + ("@" + repr(hk) if hk is not None else ""))
             elif isinstance(n, ast.Call):
                 nm = self._callee_name(n)
                 if nm == "node_is_minimal":
@@ -329,7 +330,8 @@ class FuncModel:
                 if isinstance(x, ast.Subscript) and isinstance(x.ctx, (ast.Store, ast.Del)):
                     if isinstance(x.slice, ast.Constant) and isinstance(x.slice.value, str) \
                             and self.handle(x.value, n) is not None:
-                        out.add("F:" + x.slice.value)
+                        hk = self.hkey(x.value, n)
+                        out.add("F:" + x.slice.value + ("@" + repr(hk) if hk is not None else ""))
                     else:
                         b = x.value
                         while isinstance(b, (ast.Subscript, ast.Attribute)):
@@ -356,7 +358,7 @@ class FuncModel:
                     elif isinstance(x.func, ast.Attribute):
                         d = dotted(x.func) or ""
                         if d.endswith("dag.add_node"):
-                            out |= {"*nodes", "F:*"}
+                            out |= {"*nodes"}
                         elif d.endswith("dag.add_edge"):
                             out.add("*edges")
                         elif ".dag." in d and x.func.attr.startswith(("remove", "clear")):
@@ -520,6 +522,14 @@ def call_arg(c: ast.Call, i: int, name: str) -> ast.expr | None:
 def _conflict(reads: set[str], writes: set[str]) -> bool:
     if reads & writes:
         return True
+    for r in reads:
+        if r.startswith("F:"):
+            rf, _, rh = r.partition("@")
+            for w in writes:
+                if w.startswith("F:"):
+                    wf, _, wh = w.partition("@")
+                    if rf == wf and (not rh or not wh or rh == wh):
+                        return True
     if "F:*" in writes and any(r.startswith("F:") for r in reads):
         return True
     if ALL_HEAP in writes and any(r.startswith(("F:", "*")) for r in reads):
@@ -597,7 +607,7 @@ class Program:
                     elif isinstance(n, ast.Call) and isinstance(n.func, ast.Attribute):
                         d = dotted(n.func) or ""
                         if d.endswith("dag.add_node"):
-                            w |= {"*nodes", "F:*"}
+                            w |= {"*nodes"}  # fields of a *new* node: no existing handle is affected
                         elif d.endswith("dag.add_edge"):
                             w.add("*edges")
                         elif ".dag." in d and n.func.attr.startswith(("remove", "clear")):
